@@ -101,22 +101,35 @@ Proof.
   destruct o; try reflexivity. now rewrite go_exp_z_ext.
 Qed.
 
-Lemma check_pubcase_ext c : C23.check_pubcase pm1 c = C23.check_pubcase pm2 c.
+Lemma forallb_ext' {A} (f g : A -> bool) l : (forall x, f x = g x) -> forallb f l = forallb g l.
+Proof. intros H. induction l as [|x l IH]; cbn; [reflexivity|]. now rewrite H, IH. Qed.
+
+Lemma run_pubop_ext k env o : run_pubop pm1 k env o = run_pubop pm2 k env o.
 Proof.
-  unfold C23.check_pubcase, run_pubop. destruct c as [[k o] ob].
-  destruct o; try reflexivity.
+  unfold run_pubop. destruct o; try reflexivity.
   - now rewrite encrypt_ext.
   - now rewrite verify_ext.
   - now rewrite encrypt_pkcs1v15_ext.
 Qed.
 
-Lemma check_privcase_ext c : C23.check_privcase pm1 c = C23.check_privcase pm2 c.
+Lemma check_pubcase_ext c : C23.check_pubcase pm1 c = C23.check_pubcase pm2 c.
 Proof.
-  unfold C23.check_privcase, run_privop. destruct c as [[k o] ob].
-  destruct o; try reflexivity.
+  unfold C23.check_pubcase. destruct c as [[k env] ops]. apply forallb_ext'.
+  intros oo. now rewrite run_pubop_ext.
+Qed.
+
+Lemma run_privop_ext k env o : run_privop pm1 k env o = run_privop pm2 k env o.
+Proof.
+  unfold run_privop. destruct o; try reflexivity.
   - now rewrite decrypt_ext.
   - now rewrite sign_ext.
   - now rewrite decrypt_pkcs1v15_ext.
+Qed.
+
+Lemma check_privcase_ext c : C23.check_privcase pm1 c = C23.check_privcase pm2 c.
+Proof.
+  unfold C23.check_privcase. destruct c as [[k env] ops]. apply forallb_ext'.
+  intros oo. now rewrite run_privop_ext.
 Qed.
 End Ext.
 
